@@ -48,4 +48,36 @@ theorem classCert_sound {n : Nat} {tyf : Nat → Nat} {nb : Nat → List Nat} {a
   have := (List.all_eq_true.mp h) i (List.mem_range.mpr hi)
   simpa [List.contains_iff_mem] using this
 
+theorem isPerm_sound {n : Nat} {pi : Nat → Nat} (h : isPerm n pi = true) :
+    (∀ i, i < n → pi i < n) ∧ (∀ i, i < n → ∀ j, j < n → pi i = pi j → i = j) := by
+  unfold isPerm at h
+  simp only [Bool.and_eq_true, decide_eq_true_eq, List.all_eq_true, List.mem_map, List.mem_range,
+    forall_exists_index, and_imp, forall_apply_eq_imp_iff₂] at h
+  refine ⟨h.2, fun i hi j hj hij => ?_⟩
+  exact (List.nodup_map_iff_inj_on List.nodup_range).mp h.1 i (List.mem_range.mpr hi) j (List.mem_range.mpr hj) hij
+
+/-- what a kernel-evaluated automorphism certificate means (donor maps are only meaningful on the exterior
+ring `nint ≤ i`; interior cells are mapped to interior cells) -/
+theorem autoCert_sound {ncool nint : Nat} {tyf : Nat → Nat} {nb : Nat → List Nat} {dA dB : Nat → Option Nat}
+    {pi : Nat → Nat} (h : autoCert ncool nint tyf nb dA dB pi = true) :
+    (∀ i, i < ncool → pi i < ncool) ∧ (∀ i, i < ncool → ∀ j, j < ncool → pi i = pi j → i = j)
+    ∧ ∀ i, i < ncool → tyf (pi i) = tyf i ∧ (nb (pi i)).length = (nb i).length
+        ∧ (∀ j ∈ nb i, pi j ∈ nb (pi i)) ∧ (pi i < nint ↔ i < nint)
+        ∧ (¬ i < nint → dB (pi i) = (dA i).map pi ∧ (∀ j, dA i = some j → j < ncool)) := by
+  unfold autoCert at h
+  rw [Bool.and_eq_true] at h
+  obtain ⟨hp, hrest⟩ := h
+  obtain ⟨hm, hinj⟩ := isPerm_sound hp
+  refine ⟨hm, hinj, fun i hi => ?_⟩
+  have := (List.all_eq_true.mp hrest) i (List.mem_range.mpr hi)
+  simp only [Bool.and_eq_true, Bool.or_eq_true, beq_iff_eq, List.all_eq_true, List.contains_iff_mem,
+    decide_eq_decide, decide_eq_true_eq] at this
+  obtain ⟨⟨⟨⟨h1, h2⟩, h3⟩, h4⟩, h5⟩ := this
+  refine ⟨h1, h2, h3, h4, fun hni => ?_⟩
+  rcases h5 with h5 | ⟨h5, h6⟩
+  · exact absurd h5 hni
+  · refine ⟨h5, fun j hj => ?_⟩
+    rw [hj] at h6
+    simpa using h6
+
 end Dassh.Table
